@@ -66,6 +66,7 @@ class Prog:
         self.initial = initial
         self.guard = guard
         self.body = body
+        self.abstr = {}
 
     def assigned_vars(self, stmts=None):
         out = []
@@ -550,5 +551,8 @@ def read_polar(program):
                 vals.append(q.cval())
             if ok:
                 types[str(v)] = sorted(set(vals))
-    return Prog(types, [read_stmt(s) for s in program.initial], read_cond(program.loop_guard),
+    prog = Prog(types, [read_stmt(s) for s in program.initial], read_cond(program.loop_guard),
                 [read_stmt(s) for s in program.loop_body])
+    # stand-ins for conditions over non-finite variables: probability symbol -> the condition it abbreviates
+    prog.abstr = {str(k): read_cond(c) for k, c in getattr(program, "abstracted_const_store", {}).items()}
+    return prog
